@@ -2,6 +2,7 @@ import Driver.Proto
 import Ezc3dVerif.Model.Read
 import Ezc3dVerif.Model.Write
 import Ezc3dVerif.Model.SaveIO
+import Ezc3dVerif.Proofs.LoadWriteDec
 /-
   Line-protocol driver: runs the model on an op script and prints the same lines as the C++
   harness (/verif/harness/harness.cpp).
@@ -227,6 +228,18 @@ def stepLine (d : DState) (n : Nat) (line : String) : IO (DState × List String)
         return (d, [hd, "R ok", s!"W {n} no-fault"])
       | .throw e => return (d, [hd, s!"R throw {e}", "W fault"])
       | .ub k => return (d, [hd, s!"R ub {k.toString}"])
+    | ["lwcheck"] =>
+      -- is the current object inside the domain of the theorem `load_write` (Proofs/LoadWrite.lean)? and does the conclusion hold (it must)?
+      match writeParamSection s.ph s.groups 512, s.write with
+      | .ok ps, .ok b =>
+        let gs' := (s.reloaded ps.length [] []).groups
+        let pl := match (if s.hdr.nbPoints > 0 then strsOf gs' N.POINT N.LABELS else .ok []) with | .ok l => l | _ => []
+        let al := match (if s.hdr.nbAnalogs > 0 then strsOf gs' N.ANALOG N.LABELS else .ok []) with | .ok l => l | _ => []
+        let hyps := decide (LoadWriteHyps fops s b ps pl al)
+        let concl := decide (C3D.load fops b = .ok (s.reloaded ps.length pl al))
+        let sameFrames := decide ((s.reloaded ps.length pl al).frames = s.frames)
+        return (d, [hd, s!"V lw hyps={hyps} concl={concl} frames_identical={sameFrames}"])
+      | _, _ => return (d, [hd, "V lw nowrite"])
     | ["print"] => return (d, [hd, "R ok"])
     | ["dump"] => return (d, hd :: dumpLines d.mode s)
     | ["sep"] => return (d, [hd, "V sep ok"])    -- C08.reach_sep: separation holds in every reachable state of Model/Heap
